@@ -135,6 +135,25 @@ Theorem C14_indent_directives_any : forall infix s toks, lex_tab infix s = Some 
   option_map leading_comments (lex_tab infix (indent_by_parens s)) = Some (leading_comments toks).
 Proof. intros infix s toks H Hn. rewrite C14_indent_any, H. cbn [option_map]. rewrite trim_last_leading by exact Hn. reflexivity. Qed.
 
+(* the first clause for EVERY accepted source and either notation: an accepted source is white space plus a well-formed
+   layout of its raw pieces (comments, literals, delimiters, words); two layouts of the same pieces give the same tokens;
+   and comments between the pieces never change what the parser is given *)
+Theorem C14_lex_accepts_rendering : forall infix s toks, lex_tab infix s = Some toks ->
+  exists lead items, s = lead ++ render items /\ all_space lead /\ wf_items L0 N0 false items /\
+                     recl_all is_letter_tab is_number_tab infix (map fst items) = Some toks.
+Proof. exact (lex_accepts_rendering is_letter_tab is_number_tab eq_refl eq_refl). Qed.
+Theorem C14_layout_invariance_any : forall infix lead1 lead2 items1 items2,
+  all_space lead1 -> all_space lead2 -> wf_items L0 N0 false items1 -> wf_items L0 N0 false items2 ->
+  map fst items1 = map fst items2 ->
+  lex_tab infix (lead1 ++ render items1) = lex_tab infix (lead2 ++ render items2).
+Proof. exact (layout_invariance_any is_letter_tab is_number_tab eq_refl eq_refl). Qed.
+Theorem C14_comments_invariance_any : forall infix lead1 lead2 items1 items2,
+  all_space lead1 -> all_space lead2 -> wf_items L0 N0 false items1 -> wf_items L0 N0 false items2 ->
+  drop_comments (map fst items1) = drop_comments (map fst items2) ->
+  option_map drop_comments (lex_tab infix (lead1 ++ render items1)) =
+  option_map drop_comments (lex_tab infix (lead2 ++ render items2)).
+Proof. exact (layout_invariance_comments_any is_letter_tab is_number_tab eq_refl eq_refl). Qed.
+
 (* non-vacuity: infix source with the glued `!ident` spelling (outside wf_items), a directive comment, a string list *)
 Definition isrc : str := ss ";;;; optimize: false
  x > 1 &&  !y ||( !z && in( s ,[""a b"" ""(c""] ))  ; end  ".
@@ -178,5 +197,6 @@ Print Assumptions C14_indent_parse.
 Print Assumptions C14_indent_statement.
 Print Assumptions C14_indent_any.
 Print Assumptions C14_indent_parse_any.
+Print Assumptions C14_comments_invariance_any.
 Print Assumptions C14_layout_invariance.
 Print Assumptions C14_comments_invariance.
